@@ -13,7 +13,7 @@ from typing import Any
 from .. import casecheck
 from ..core import Ctx
 
-HANG_SECONDS = 1.0  # the pass normally needs ~1 ms per op; a lowering still running after 2 s never ends
+HANG_SECONDS = 2.0  # CPU seconds of this process (not wall clock: machine load must not raise an alarm); the pass normally needs ~1 ms per op
 
 INT = ["t0", "t1", "t2", "t3", "t4"]
 FLT = ["ft0", "ft1", "ft2", "ft3"]
@@ -62,14 +62,14 @@ def lower(moves: list[tuple[str, str, int]], free: list[str], distinct_ssa: bool
     def _alarm(signum, frame):
         raise _Hang()
 
-    old = signal.signal(signal.SIGALRM, _alarm)
-    signal.setitimer(signal.ITIMER_REAL, HANG_SECONDS, 0.05)  # repeating: a raise swallowed somewhere is retried
+    old = signal.signal(signal.SIGVTALRM, _alarm)
+    signal.setitimer(signal.ITIMER_VIRTUAL, HANG_SECONDS, 0.05)  # repeating: a raise swallowed somewhere is retried
     try:
         try:
             RISCVLowerParallelMovPass().apply(Context(), module)
         finally:
-            signal.setitimer(signal.ITIMER_REAL, 0)
-            signal.signal(signal.SIGALRM, old)
+            signal.setitimer(signal.ITIMER_VIRTUAL, 0)
+            signal.signal(signal.SIGVTALRM, old)
     except _Hang:
         out["failed"] = 1
         out["hang"] = True
@@ -141,7 +141,7 @@ def run(ctx: Ctx):
     def add(moves, free, regs, floats, distinct=False):
         r = lower(moves, free, distinct)
         if r.get("hang"):
-            ctx.violate(f"moves {moves} free {free}: the pass does not terminate (still inserting ops after {HANG_SECONDS}s)",
+            ctx.violate(f"moves {moves} free {free}: the pass does not terminate (still inserting ops after {HANG_SECONDS} s of CPU)",
                         {"clause": "Terminates", "shape": classify({"moves": [list(m) for m in moves], "free": free}),
                          "cause": causes({"moves": [list(m) for m in moves], "free": free}, distinct, set())[0],
                          "moves": [list(m) for m in moves], "free": free, "distinct_ssa": distinct}, clause="Terminates")
